@@ -83,10 +83,10 @@ Section Ext.
       unfold hnode_with. rewrite <- (Hsig m Hl).
       destruct (nsig cs h m) as [sg|e] eqn:Esg; cbn [bind]; [|reflexivity].
       assert (Et : (match sg_task sg with
-                    | Some t => do r <- hv H cs h look f (m :: st) (VRef t); Ok (TASK_ID :: fst r, snd r)
+                    | Some t => do r <- hv H cs h look f (m :: st) (VRef t); Ok (tmark (m :: st) t (fst r), snd r)
                     | None => Ok ([], O) end)
                  = (match sg_task sg with
-                    | Some t => do r <- hv H cs' h' look f (m :: st) (VRef t); Ok (TASK_ID :: fst r, snd r)
+                    | Some t => do r <- hv H cs' h' look f (m :: st) (VRef t); Ok (tmark (m :: st) t (fst r), snd r)
                     | None => Ok ([], O) end)).
       { destruct (sg_task sg) as [t|] eqn:Etask; [|reflexivity].
         rewrite IH; [reflexivity|]. cbn [live_top]. exact (Htask m sg t Hl Esg Etask). }
@@ -102,10 +102,10 @@ Section Ext.
     intros Hl. unfold hnode, hnode_with. rewrite <- (Hsig n Hl).
     destruct (nsig cs h n) as [sg|e] eqn:Esg; cbn [bind]; [|reflexivity].
     assert (Et : (match sg_task sg with
-                  | Some t => do r <- hv H cs h look fuel (n :: st) (VRef t); Ok (TASK_ID :: fst r, snd r)
+                  | Some t => do r <- hv H cs h look fuel (n :: st) (VRef t); Ok (tmark (n :: st) t (fst r), snd r)
                   | None => Ok ([], O) end)
                = (match sg_task sg with
-                  | Some t => do r <- hv H cs' h' look fuel (n :: st) (VRef t); Ok (TASK_ID :: fst r, snd r)
+                  | Some t => do r <- hv H cs' h' look fuel (n :: st) (VRef t); Ok (tmark (n :: st) t (fst r), snd r)
                   | None => Ok ([], O) end)).
     { destruct (sg_task sg) as [t|] eqn:Etask; [|reflexivity].
       rewrite hv_sig_ext; [reflexivity|]. cbn [live_top]. exact (Htask n sg t Hl Esg Etask). }
@@ -203,3 +203,13 @@ Proof.
   - intros m sg k v. apply nsig_args_not_meta.
   - reflexivity.
 Qed.
+
+(* ---- the task mark ------------------------------------------------------------------------- *)
+Lemma tmark_none st t b : index_of t st = None -> tmark st t b = TASK_ID :: b.
+Proof. intros E. unfold tmark. rewrite E. reflexivity. Qed.
+
+Lemma tmark_some st t b p : index_of t st = Some p -> tmark st t b = [].
+Proof. intros E. unfold tmark. rewrite E. reflexivity. Qed.
+
+Lemma tmark_same_index st st' t b : index_of t st = index_of t st' -> tmark st t b = tmark st' t b.
+Proof. intros E. unfold tmark. rewrite E. reflexivity. Qed.
